@@ -191,6 +191,14 @@ func ProveLemma(prog *Prog, specs *Specs, l *Lemma, tier string) (res []OblResul
 // ProveLemmaCtx proves each `ensures` in a context of its own (only the calls
 // that goal mentions are unfolded), which keeps the queries small.
 func ProveLemmaCtx(prog *Prog, specs *Specs, l *Lemma, tier string, c *checkCtx) (res []OblResult) {
+	if l.Assumed != "" {
+		if c != nil {
+			c.mu.Lock()
+			c.ext["assumed lemma "+specs.PkgName+"."+l.Name+": "+l.Assumed] = true
+			c.mu.Unlock()
+		}
+		return nil
+	}
 	if len(l.Ensures) <= 1 {
 		return proveLemmaPart(prog, specs, l, tier, c, 0)
 	}
@@ -241,6 +249,34 @@ func proveLemmaPart(prog *Prog, specs *Specs, l *Lemma, tier string, c *checkCtx
 		}
 	}()
 	env := x.bindVars(pkg, l.Vars)
+	// closures with symbolic captured variables
+	for _, cd := range l.Closures {
+		fn := prog.Func(cd.Fn)
+		if fn == nil {
+			panic(fmt.Sprintf("contract: no closure %s", cd.Fn))
+		}
+		clo := Clo{Fn: fn}
+		for _, fv := range fn.FreeVars {
+			var decl *VarDecl
+			for i := range cd.Free {
+				if cd.Free[i].Name == fv.Name() {
+					decl = &cd.Free[i]
+				}
+			}
+			if decl == nil {
+				panic(fmt.Sprintf("contract: closure %s captures %s, which the declaration does not list", cd.Fn, fv.Name()))
+			}
+			t := x.resolveType(pkg, decl.Type)
+			v := x.freshVal(t, decl.Name)
+			env.vars[decl.Name] = TV{v, t}
+			x.cellN++
+			cell := &Cell{id: x.cellN, name: decl.Name, typ: t}
+			x.st.cells[cell] = v
+			clo.Free = append(clo.Free, Ptr{Kind: pCell, Cell: cell, Root: t})
+		}
+		env.vars[cd.Name] = TV{clo, fn.Signature}
+		x.unfold[cd.Fn] = true
+	}
 	x.polarity = -1
 	for _, r := range l.Requires {
 		x.sc.Assert(x.evalBool(env, r))
@@ -302,6 +338,9 @@ func proveLemmaPart(prog *Prog, specs *Specs, l *Lemma, tier string, c *checkCtx
 				doneAx[m.Name] = true
 				changed = true
 				x.sc.Comment("axioms from lemma " + m.Name)
+				if m.Assumed != "" {
+					x.externs["assumed lemma "+m.Name+": "+m.Assumed] = true
+				}
 				mpkg := pkg
 				if pth, ok := specs.ForeignOf[m]; ok {
 					mpkg = prog.PPkgs[pth].Types
